@@ -175,8 +175,8 @@ R.contract(f'{BC}.load_metadata', self_type='Obj[BaseCache]', params={'storage':
     ensures=[C("(fid(key, META_NAME()) in FGOOD) and (result == json_inv(FGOOD[fid(key, META_NAME())]))", 'the document stored under that key', serves=('C06', 'C09')),
              C("Doc_has_cache(result) and (Doc_val_cache(result) == cache_cls_name(CACHE_OF(self)))", 'written by this cache format', serves=('C09',)),
              C("qualname_prefix_ok(CACHE_OF(self), task_type, key)", 'the key carries this format\'s prefix and the type\'s name', serves=('C09',)),
-             C("FILES_SAME() and DIRS_SAME_EXCEPT(key)", 'a load changes no file', serves=('C08',))],
-    raises={'Exception': [C("FILES_SAME() and DIRS_SAME_EXCEPT(key)", 'a failed load changes no file', serves=('C08',))]},
+             C("FILES_SAME() and DIRS_SAME_EXCEPT(key) and implies(key in old(DIRS), key in DIRS)", 'a load changes no file and removes no entry', serves=('C08', 'C09'))],
+    raises={'Exception': [C("FILES_SAME() and DIRS_SAME_EXCEPT(key) and implies(key in old(DIRS), key in DIRS)", 'a failed load changes no file and removes no entry', serves=('C08', 'C09'))]},
     frame=FSFRAME + ['Handle.pending'])
 R.contract(f'{BC}.build_result_meta', self_type='Obj[BaseCache]', params={'metadata': 'Doc'}, returns='Meta',
     ensures=[C("implies(Doc_has_start_timestamp(metadata), (not Doc_null_start_timestamp(metadata)) and (result.start == some(fromisoformat(Doc_val_start_timestamp(metadata)))))", 'start read back', serves=('C06',)),
@@ -290,7 +290,39 @@ R.contract(f'{BC}.load_task', self_type='Obj[BaseCache]', params={'storage': 'St
     ensures=[C("is_PTask(result) and (type_of_Task(Inst_to_Task(inst(result))) == task_type)", 'only tasks of the requested type are returned (a type whose name merely starts like another\'s is rejected here)', serves=('C09',)),
              C("(fid(key, META_NAME()) in FGOOD) and (result == PTask(deser_task_pv(Doc_val_task(json_inv(FGOOD[fid(key, META_NAME())])))))", 'the task is rebuilt from the document stored under that key', serves=('C09',)),
              C("Doc_val_cache(json_inv(FGOOD[fid(key, META_NAME())])) == cache_cls_name(CACHE_OF(self))", 'entries of other cache formats contribute nothing', serves=('C09',)),
-             C("FILES_SAME() and DIRS_SAME_EXCEPT(key)", 'listing changes no file', serves=('C08',))],
-    raises={'Exception': [C("FILES_SAME() and DIRS_SAME_EXCEPT(key)", 'a failed load changes no file', serves=('C08',))]},
+             C("FILES_SAME() and DIRS_SAME_EXCEPT(key) and implies(key in old(DIRS), key in DIRS)", 'listing changes no file and removes no entry', serves=('C08', 'C09'))],
+    raises={'Exception': [C("FILES_SAME() and DIRS_SAME_EXCEPT(key) and implies(key in old(DIRS), key in DIRS)", 'a failed load changes no file and removes no entry', serves=('C08', 'C09'))]},
     frame=FSFRAME + ['Handle.pending'])
 R.classes[BC].fields['serializer'] = 'Obj[Serializer]'
+
+# ---- Lab.cached_tasks (lab.py): which stored entries are listed, and that each key contributes at most once (C09)
+R.func('accepts', ['Type', 'Key'], 'Bool')        # GHOST: the cache of this task type recognises the entry stored under this key as one of its tasks
+R.macro('STORED_TASK', ['key'], 'PTask(deser_task_pv(Doc_val_task(json_inv(FGOOD[fid(key, META_NAME())]))))')
+R.contract(f'{CAK}.load_task', abstract=True, self_type='Obj[Cache]', params={'storage': 'Storage', 'task_type': 'Type', 'key': 'Key'}, returns='PV',
+    ensures=[C("accepts(task_type, key)", 'GHOST definition: a normal return is what "the type accepts the key" means'),
+             C("is_PTask(result) and (type_of_Task(Inst_to_Task(inst(result))) == task_type)", 'a task of the requested type', serves=('C09',)),
+             C("result == STORED_TASK(key)", 'rebuilt from the document stored under that key', serves=('C09',)),
+             C("FILES_SAME() and DIRS_SAME_EXCEPT(key) and implies(key in old(DIRS), key in DIRS)", 'a load changes no file and removes no entry', serves=('C08', 'C09'))],
+    raises={'TaskNotFound': [C("not accepts(task_type, key)", 'GHOST definition: TaskNotFound is what "does not accept" means'),
+                             C("FILES_SAME() and DIRS_SAME_EXCEPT(key) and implies(key in old(DIRS), key in DIRS)", 'a load changes no file and removes no entry', serves=('C08', 'C09'))],
+            'Exception': [C("FILES_SAME() and DIRS_SAME_EXCEPT(key) and implies(key in old(DIRS), key in DIRS)", 'a failed load changes no file and removes no entry', serves=('C08', 'C09'))]},
+    frame=FSFRAME + ['Handle.pending'])
+R.alias('Cache', 'load_task', f'{CAK}.load_task')
+R.contract('labtech.lab:check_task_types', params={'task_types': 'List[Type]'}, trusted=True, raises={}, frame=[],
+    note='argument validation; the property quantifies over genuine task types')
+R.contract(f'{LABK}.cached_tasks', self_type='Obj[Lab]', params={'task_types': 'List[Type]'}, returns='List[PV]',
+    ensures=[C("forall('PV', lambda v: implies(v in result, exists('Key','Type', lambda k, ty: (k in DIRS) and (ty in task_types) and accepts(ty, k) and (v == STORED_TASK(k)) "
+               "and is_PTask(v) and (type_of_Task(Inst_to_Task(inst(v))) == ty))))",
+               'SOUND: every listed task is the task stored under an existing key that one of the given types accepts, and has that type', serves=('C09',)),
+             C("forall('Key','Type', lambda k, ty: implies((k in DIRS) and (ty in task_types) and accepts(ty, k), STORED_TASK(k) in result))",
+               'COMPLETE: every stored entry that one of the given types accepts is listed', serves=('C09',)),
+             C("FILES_SAME() and (DIRS == old(DIRS))", 'listing changes nothing', serves=('C08', 'C09'))],
+    raises={'Exception': [C("FILES_SAME() and (DIRS == old(DIRS))", 'a failed listing changes nothing', serves=('C08', 'C09'))]},
+    frame=FSFRAME + ['Handle.pending'], cand_locals=('tasks', 'keys', 'key'),
+    candidates=["forall('Key', lambda k: (k in keys) == (k in DIRS))",
+                "FILES_SAME() and (DIRS == old(DIRS))",
+                "forall('PV', lambda v: implies(v in tasks, exists('Key','Type', lambda k, ty: (k in DIRS) and (ty in task_types) and accepts(ty, k) and (v == STORED_TASK(k)) and is_PTask(v) and (type_of_Task(Inst_to_Task(inst(v))) == ty))))",
+                "forall('Key','Type', lambda k, ty: implies((k in __done__) and (ty in task_types) and accepts(ty, k), STORED_TASK(k) in tasks))",
+                "forall('Key','Type', lambda k, ty: implies((k in __done_outer__) and (ty in task_types) and accepts(ty, k), STORED_TASK(k) in tasks))",
+                "forall('Type', lambda ty: implies(ty in __done__, not accepts(ty, key)))",
+                ])
